@@ -345,3 +345,38 @@ func resolveLocal(f *Func, e ast.Expr) ast.Expr {
 	}
 	return e
 }
+
+// literalOnlyRunByOnce: lit is bound by `v := func…` and every use of v is the
+// argument of a sync.Once.Do call (a named once body).
+func literalOnlyRunByOnce(p *Prog, lit *ast.FuncLit) bool {
+	as, ok := p.Parent(lit).(*ast.AssignStmt)
+	if !ok || len(as.Lhs) != 1 || len(as.Rhs) != 1 {
+		return false
+	}
+	id, ok := as.Lhs[0].(*ast.Ident)
+	if !ok {
+		return false
+	}
+	f := p.EnclosingFunc(as)
+	if f == nil {
+		return false
+	}
+	info := f.Info()
+	v := info.Defs[id]
+	if v == nil {
+		return false
+	}
+	uses, guarded := 0, 0
+	ast.Inspect(f.Root().Body, func(x ast.Node) bool {
+		uid, ok := x.(*ast.Ident)
+		if !ok || info.Uses[uid] != v {
+			return true
+		}
+		uses++
+		if call, ok := p.Parent(uid).(*ast.CallExpr); ok && callName(info, call) == "sync.(*Once).Do" && len(call.Args) == 1 && call.Args[0] == ast.Expr(uid) {
+			guarded++
+		}
+		return true
+	})
+	return uses > 0 && uses == guarded
+}
